@@ -127,6 +127,20 @@ pub fn build_sysv_threaded(order: Order, names: &[Vec<u8>], nbucket: usize, thre
     out
 }
 
+/// The `.hash` of the 64-bit Alpha and s390x processor supplements: the same table with every
+/// word (header, buckets, chains) 8 bytes wide (`sh_entsize` 8).
+pub fn build_sysv_wide(order: Order, names: &[Vec<u8>], nbucket: usize) -> Vec<u8> {
+    let narrow = build_sysv(order, names, nbucket);
+    let mut out = Vec::with_capacity(narrow.len() * 2);
+    for w in narrow.chunks_exact(4) {
+        let v = get(w, 0, 4, order);
+        let mut b = [0u8; 8];
+        put(&mut b, 0, 8, order, v);
+        out.extend_from_slice(&b);
+    }
+    out
+}
+
 pub struct GnuBuilt {
     pub section: Vec<u8>,
     /// final symbol order: the unhashed prefix followed by the hashed symbols, stably sorted by bucket
